@@ -2,8 +2,9 @@
   The lock file protocol of fs/os_unix.go + fs/os.go at system-call granularity, for any number of
   processes. One step = one system call of one process (or a crash of one process).
 
-  acquire:  stat(path); open(path, O_RDWR|O_CREATE); flock(fd, LOCK_EX|LOCK_NB);
-            fstat(fd) vs stat(path): same file -> holder, else close(fd) and start over
+  acquire:  open(path, O_RDWR|O_CREATE|O_EXCL) [EEXIST: open(path, O_RDWR); ENOENT: start over];
+            flock(fd, LOCK_EX|LOCK_NB); fstat(fd) vs stat(path): same file -> holder (write + sync the
+            owner's mark if the file is empty; a marked file counts as "existed"), else close(fd) and start over
   release:  unlink(path); close(fd)
   crash:    the OS closes the descriptors of the process (flock released), the path stays
 
@@ -13,8 +14,9 @@ namespace Pogreb.Lock
 
 inductive PC where
   | idle
-  | statDone (existed : Bool)
-  | opened (existed : Bool) (ino : Nat)
+  | exclFailed                                -- open(O_CREATE|O_EXCL) said EEXIST; next: open without O_CREATE
+  | again                                     -- start over (the file vanished / the locked file is not at the path)
+  | opened (existed : Bool) (ino : Nat)       -- existed = "did not create the file itself"
   | locked (existed : Bool) (ino : Nat)       -- flock succeeded, re-check pending
   | holding (existed : Bool) (ino : Nat)      -- CreateLockFile returned (lock, existed, nil)
   | failed                                    -- CreateLockFile returned os.ErrExist
@@ -26,43 +28,56 @@ structure Sys where
   flock   : Nat → Option Nat    -- inode ↦ process holding its flock
   nextIno : Nat                 -- fresh inode numbers
   pc      : Nat → PC
+  marked  : Nat → Bool := fun _ => false   -- inode ↦ an owner has written (and synced) its mark
+  dirty   : Bool := false       -- ghost: the last session on this directory did not complete Close
 
-def Sys.init : Sys := ⟨none, fun _ => none, 0, fun _ => .idle⟩
+def Sys.init : Sys := ⟨none, fun _ => none, 0, fun _ => .idle, fun _ => false, false⟩
 
 def setPC (s : Sys) (p : Nat) (c : PC) : Sys := { s with pc := fun q => if q = p then c else s.pc q }
 def setFlock (s : Sys) (i : Nat) (o : Option Nat) : Sys := { s with flock := fun j => if j = i then o else s.flock j }
+def setMark (s : Sys) (i : Nat) : Sys := { s with marked := fun j => if j = i then true else s.marked j }
 
 /-- One system call of process `p` (the call is determined by `p`'s program counter), or nothing
 if `p` is not in a state where it makes calls on its own (`idle`, `holding`, `failed` need a
 `start` / `release` / `retry` decision of the caller, see `Action`). -/
 inductive Action where
-  | start (p : Nat)      -- p calls CreateLockFile (idle or failed -> first call: stat)
+  | start (p : Nat)      -- p calls CreateLockFile (idle or failed -> first call: open O_CREATE|O_EXCL)
   | sys (p : Nat)        -- p's next system call inside CreateLockFile / Unlock
   | release (p : Nat)    -- the holder p calls Unlock (first call: unlink)
   | crash (p : Nat)      -- p dies
   deriving Repr
 
+/-- `open(path, O_RDWR|O_CREATE|O_EXCL)`. -/
+def openExcl (s : Sys) (p : Nat) : Sys :=
+  match s.path with
+  | some _ => setPC s p .exclFailed
+  | none => setPC { s with path := some s.nextIno, nextIno := s.nextIno + 1 } p (.opened false s.nextIno)
+
 def step (verify : Bool) (s : Sys) : Action → Sys
   | .start p => match s.pc p with
-    | .idle | .failed => setPC s p (.statDone s.path.isSome)
+    | .idle | .failed => openExcl s p
     | _ => s
   | .sys p => match s.pc p with
-    | .statDone e => match s.path with
-      | some i => setPC s p (.opened e i)
-      | none => setPC { s with path := some s.nextIno, nextIno := s.nextIno + 1 } p (.opened e s.nextIno)
+    | .again => openExcl s p
+    | .exclFailed => match s.path with
+      | some i => setPC s p (.opened true i)
+      | none => setPC s p .again                     -- ENOENT: the owner removed it meanwhile
     | .opened e i => match s.flock i with
       | none => setPC (setFlock s i (some p)) p (if verify then .locked e i else .holding e i)
       | some _ => setPC s p .failed          -- EWOULDBLOCK; the descriptor is closed
     | .locked e i =>
-      if s.path = some i then setPC s p (.holding e i)
-      else setPC (setFlock s i none) p (.statDone s.path.isSome)   -- close, start over: stat
+      if s.path = some i then
+        -- the owner's mark: a marked file was owned by somebody else since it was created
+        let s' := setPC (setMark s i) p (.holding (e || s.marked i) i)
+        { s' with dirty := true }              -- a session begins (it is unclean until Close completes)
+      else setPC (setFlock s i none) p .again  -- close, start over
     | .unlinked i => setPC (setFlock s i none) p .idle
     | _ => s
   | .release p => match s.pc p with
-    | .holding _ i => setPC { s with path := none } p (.unlinked i)
+    | .holding _ i => setPC { s with path := none, dirty := false } p (.unlinked i)
     | _ => s
   | .crash p => match s.pc p with
-    | .opened _ _ | .statDone _ | .idle | .failed => setPC s p .idle
+    | .opened _ _ | .exclFailed | .again | .idle | .failed => setPC s p .idle
     | .locked _ i | .holding _ i | .unlinked i => setPC (setFlock s i none) p .idle
 
 def run (verify : Bool) (s : Sys) (as : List Action) : Sys := as.foldl (step verify) s
